@@ -3,11 +3,12 @@
 // prints, after every operation, what the call returned and the reachable state.
 //
 // kind est   meta: lin, circ
-//   word ops  e2 | e5 | m:<method> | w:<int> | c         (operation k = k-th token, 0-based)
+//   word ops  e2 | e5 | m:<method> | w:<int> | c | mv | ma   (operation k = k-th token, 0-based;
+//                                                            mv / ma = move-construct / move-assign, go on with the target)
 //   mat P<k> (lin+circ) x N, mat W<k> N x 1              (operands of an extract at position k)
 //   mat PW<k> M x 1, mat L<k> N x 1, mat T<k> N x M      (additionally for e5)
 // kind hb    meta: d
-//   word ops  a | s:<int> | d | i | c                    mat X<k> d x 1 for an add at position k
+//   word ops  a | s:<int> | d | i | c | mv | ma          mat X<k> d x 1 for an add at position k
 //
 // The protected members (hist_buffer_, the three cached weight vectors, the method) are
 // reached by subclassing; nothing is redefined.
@@ -16,6 +17,7 @@
 #include <BayesFilters/EstimatesExtraction.h>
 #include <BayesFilters/HistoryBuffer.h>
 #include <csignal>
+#include <memory>
 #include <unistd.h>
 
 // On a fatal signal (e.g. pop_back on an empty deque) name the API call that was running.
@@ -58,13 +60,31 @@ static void out_col(const std::string& name, const VectorXd& v) {
 
 static void run_est(const vf::Case& c) {
     const long lin = c.mi("lin"), circ = c.mi("circ");
-    Probe ee(lin, circ);
+    std::unique_ptr<Probe> holder(new Probe(lin, circ));
     const std::vector<std::string>& ops = c.word("ops");
     vf::out_begin(c.id);
     for (std::size_t k = 0; k < ops.size(); k++) {
         const std::string& o = ops[k];
         const std::string ks = std::to_string(k);
-        if (o == "e2" || o == "e5") {
+        if (o == "mv" || o == "ma") {
+            // move construction / move assignment: go on with the TARGET; the moved-from source is only asked
+            // for its window (0 by HistoryBuffer.cpp:24/35) and then destroyed
+            std::unique_ptr<Probe> target;
+            if (o == "mv") {
+                vf::Entry e("EstimatesExtraction::EstimatesExtraction(&&)");
+                target.reset(new Probe(std::move(*holder)));
+            } else {
+                target.reset(new Probe(lin, circ));
+                vf::Entry e("EstimatesExtraction::operator=(&&)");
+                *target = std::move(*holder);
+            }
+            vf::out_int("ret" + ks, 1);
+            vf::out_int("movedfrom_win" + ks, holder->window());
+            holder = std::move(target);
+        }
+        Probe& ee = *holder;
+        if (o == "mv" || o == "ma") {
+        } else if (o == "e2" || o == "e5") {
             const MatrixXd& P = c.mat("P" + ks);
             const VectorXd W = c.mat("W" + ks).col(0);
             std::pair<bool, VectorXd> r;
@@ -111,6 +131,7 @@ static void run_est(const vf::Case& c) {
         out_col("emw" + ks, ee.emw());
     }
     // the window size as the public API reports it
+    Probe& ee = *holder;
     {
         vf::Entry e("EstimatesExtraction::getInfo");
         std::vector<std::string> info = ee.getInfo();
@@ -127,13 +148,29 @@ static void run_est(const vf::Case& c) {
 
 static void run_hb(const vf::Case& c) {
     const long d = c.mi("d");
-    HistoryBuffer hb(d);
+    std::unique_ptr<HistoryBuffer> hholder(new HistoryBuffer(d));
     const std::vector<std::string>& ops = c.word("ops");
     vf::out_begin(c.id);
     for (std::size_t k = 0; k < ops.size(); k++) {
         const std::string& o = ops[k];
         const std::string ks = std::to_string(k);
-        if (o == "a") {
+        if (o == "mv" || o == "ma") {
+            std::unique_ptr<HistoryBuffer> target;
+            if (o == "mv") {
+                vf::Entry e("HistoryBuffer::HistoryBuffer(&&)");
+                target.reset(new HistoryBuffer(std::move(*hholder)));
+            } else {
+                target.reset(new HistoryBuffer(d));
+                vf::Entry e("HistoryBuffer::operator=(&&)");
+                *target = std::move(*hholder);
+            }
+            vf::out_int("ret" + ks, 1);
+            vf::out_int("movedfrom_win" + ks, hholder->getHistorySize());
+            hholder = std::move(target);
+        }
+        HistoryBuffer& hb = *hholder;
+        if (o == "mv" || o == "ma") {
+        } else if (o == "a") {
             const VectorXd x = c.mat("X" + ks).col(0);
             vf::Entry e("HistoryBuffer::addElement");
             hb.addElement(x);
